@@ -52,7 +52,8 @@ FEATURES = ['prints', 'replace_stdout', 'simplefilter', 'filterwarnings', 'showw
             'stdout_in_func', 'close_stdout', 'close_stdout_with', 'requires_module', 'requires_missing_module']
 
 IMPORT_KINDS = ['clean', 'raises', 'syntax_error', 'sibling', 'sibling_raises', 'deep', 'init_raises', 'edits_path', 'edits_path_raises',
-                'edits_path_front', 'edits_path_front_raises', 'system_exit', 'keyboard_interrupt']
+                'edits_path_front', 'edits_path_front_raises', 'system_exit', 'keyboard_interrupt', 'zip', 'zip_raises', 'zip_on_path',
+                'zip_raises_on_path']
 
 FEATURE_LINES = {
     'prints': [">>> print('some output')"],
@@ -338,8 +339,23 @@ def check_import_case(case, ctx):
             files[top + '.py'] = 'import sys\nsys.path.{}\n'.format(how) + ("raise ImportError('vp: fails after editing sys.path')\n"
                                                                           if kind.endswith('raises') else '')
             target = top + '.py'
+        elif kind.startswith('zip'):
+            target = None
         else:
             raise KeyError(kind)
+        archive = None
+        if kind.startswith('zip'):
+            # a module inside a zip archive, addressed as <archive>.zip/<module>.py; the archive itself may already be an entry
+            # of sys.path (zipapp / egg style) - that entry belongs to the caller
+            import zipfile
+            archive = os.path.join(root, top + '_arch.zip')
+            os.makedirs(root, exist_ok=True)
+            with zipfile.ZipFile(archive, 'w') as zf:
+                zf.writestr(top + '.py', "X = 1\nraise ValueError('vp import from the archive fails')\n" if 'raises' in kind else 'X = 1\n')
+            target = os.path.basename(archive) + '/' + top + '.py'
+            files = {}
+            if kind.endswith('on_path'):
+                sys.path.append(archive)
         for rel, text in files.items():
             p = os.path.join(root, *rel.split('/'))
             os.makedirs(os.path.dirname(p), exist_ok=True)
@@ -357,6 +373,8 @@ def check_import_case(case, ctx):
             sys.path[:] = [p for p in sys.path if p != '/nonexistent/vp_vendor']
         problems = compare(before, 'import')
         restore(before)
+        if archive is not None and archive in sys.path:
+            sys.path.remove(archive)
         sandbox.purge_modules([top])
     if ctx is not None:
         ctx.count()
@@ -364,7 +382,7 @@ def check_import_case(case, ctx):
         if kind not in ('clean',):
             ctx.nontriv(('import', kind, index), {'import_kind': kind, 'index': index, 'raised': repr(raised)[:200]})
     expect_raise = kind in ('raises', 'syntax_error', 'sibling_raises', 'init_raises', 'edits_path_raises', 'edits_path_front_raises',
-                            'system_exit', 'keyboard_interrupt')
+                            'system_exit', 'keyboard_interrupt', 'zip_raises', 'zip_raises_on_path')
     if expect_raise != (raised is not None):
         raise Violation('import_outcome:' + kind, 'import of a {} module: raised={!r}'.format(kind, raised))
     if kind.startswith('edits_path') and root in after_path:
